@@ -2,7 +2,9 @@
    tt_sub2ind / tt_ind2sub, squeeze, spmatrix, transpose) and the triples sp_triples of C14_gram_sparse:
      sp_nvecs_tnt S n = Some C  with  coo_triples C = sp_triples S n,   hence  gram_sp_code_path S n = Some (gram_sp_impl S n),
    and with C14_coo_product the matrix product tnt^T tnt of the denoted arrays is gram_spec of den_sp.
-   Also: the request is refused whenever mode n or the product of the other modes is <= 1 (finding C14-F2 as a theorem). *)
+   The path is the one of /repo f3d6beb (second reshape instead of squeeze; finding C14-F2 repaired): it accepts every tensor with at
+   least two modes unless mode n AND the product of the other modes are both 1 (ValueError, pinned by tests/test_sptensor.py).
+   The path before the repair (sp_nvecs_tnt_old, squeeze) refused whenever mode n or that product was <= 1: kept as a lemma. *)
 From Coq Require Import List Arith Lia Bool ZArith Ring.
 From PV Require Import Base.Index Base.Perm Base.Sum Np.Array Np.NpZ Proofs.NpZProofs Model.Sparse Model.Repr Model.C01Conv Model.C01Unique
   Model.C01Coo Gen.GenUtils Proofs.UtilsProofs Model.C14Nvecs Model.C14Gram Model.C14Unfold Model.C14SpPath
@@ -76,7 +78,7 @@ Variable isz : V -> bool.
 Lemma sp_reshape_nvecs (S : sparse V) (n : nat) :
   let s := sshape S in
   let rs := remove_nth n s in
-  n < length s -> length (ssubs S) = length (svals S) -> Forall (fun i => inb s i = true) (ssubs S) -> 1 < size rs ->
+  n < length s -> length (ssubs S) = length (svals S) -> Forall (fun i => inb s i = true) (ssubs S) -> 2 <= length s ->
   sp_reshape_gen S [size rs; 1] (rest_modes (length s) n) =
   Some (mkSp [nth n s 0; size rs; 1] (map (fun j => [nth n j 0; sub2ind rs (remove_nth n j); 0]) (ssubs S)) (svals S)).
 Proof.
@@ -91,7 +93,7 @@ Proof.
     rewrite (map_ext_in (pick 0 (rest_modes (length s) n)) (remove_nth n)).
     2:{ intros j Hj. apply pick_rest; [now apply Hlen|exact Hn]. }
     rewrite (tt_sub2ind_spec rs (map (remove_nth n) (ssubs S))).
-    2:{ now apply size_nil_not_gt1. }
+    2:{ intros Er. apply (f_equal (@length nat)) in Er. unfold rs in Er. rewrite remove_nth_length in Er by exact Hn. cbn in Er. lia. }
     2:{ intros i Hi. apply in_map_iff in Hi as (j & <- & Hj). apply inb_remove; [exact Hn|]. rewrite Forall_forall in Hin. now apply Hin. }
     rewrite map_map. rewrite <- (map_map (fun j => sub2ind rs (remove_nth n j)) Z.of_nat).
     fold (zs (map (fun j => sub2ind rs (remove_nth n j)) (ssubs S))).
@@ -116,32 +118,77 @@ Proof.
   - reflexivity.
 Qed.
 
-(* ---- the bridge: tnt as the code builds it holds exactly the triples of C14_gram_sparse *)
+(* ---- the second reshape: reshape((I, K)) of an (I, K, 1) tensor, all modes reshaped (old_modes = None) *)
+Lemma sub2ind_drop1 (I K : nat) (j : idx) : inb [I; K; 1] j = true ->
+  sub2ind [I; K; 1] j = sub2ind [I; K] [nth 0 j 0; nth 1 j 0] /\ inb [I; K] [nth 0 j 0; nth 1 j 0] = true /\ pick 0 [0; 1; 2] j = j.
+Proof.
+  destruct j as [|a [|b [|c [|x j]]]]; cbn [inb]; try discriminate; try (rewrite !andb_false_r; discriminate).
+  intros H. apply andb_true_iff in H as [Ha H]. apply andb_true_iff in H as [Hb H]. apply andb_true_iff in H as [Hc _].
+  apply Nat.ltb_lt in Hc. assert (c = 0) by lia. subst c. cbn [nth sub2ind inb pick map]. rewrite Ha, Hb.
+  repeat split; try reflexivity.
+Qed.
+
+Lemma sp_reshape_second (I K : nat) (subs : list idx) (vals : list V) :
+  length subs = length vals -> Forall (fun j => inb [I; K; 1] j = true) subs ->
+  sp_reshape_gen (mkSp [I; K; 1] subs vals) [I; K] [0; 1; 2] =
+  Some (mkSp [I; K] (map (fun j => [nth 0 j 0; nth 1 j 0]) subs) vals).
+Proof.
+  intros HL Hin. unfold sp_reshape_gen. cbn [sshape ssubs svals length].
+  change (setdiff_modes 3 [0; 1; 2]) with (@nil nat). cbn [pick map nth app].
+  replace (size [I; K] =? size [I; K; 1]) with true by (symmetry; apply Nat.eqb_eq; cbn [size fold_right]; lia).
+  cbn [negb]. rewrite Forall_forall in Hin.
+  destruct subs as [|j0 l] eqn:E.
+  - destruct vals; [reflexivity|discriminate HL].
+  - rewrite <- E in *.
+    rewrite (map_ext_in (pick 0 [0; 1; 2]) (fun j => j)).
+    2:{ intros j Hj. apply (sub2ind_drop1 I K j). now apply Hin. }
+    rewrite map_id.
+    rewrite (tt_sub2ind_spec [I; K; 1] subs); [|discriminate|exact Hin].
+    rewrite <- (map_map (sub2ind [I; K; 1]) Z.of_nat). fold (zs (map (sub2ind [I; K; 1]) subs)).
+    rewrite (tt_ind2sub_spec [I; K]).
+    2:{ intros k Hk. apply in_map_iff in Hk as (j & <- & Hj). destruct (sub2ind_drop1 I K j (Hin j Hj)) as (-> & Hb & _).
+        now apply sub2ind_lt. }
+    rewrite map_map, combine_map_r, map_map. cbn [fst snd].
+    f_equal. f_equal. apply map_ext_in. intros j Hj.
+    destruct (sub2ind_drop1 I K j (Hin j Hj)) as (-> & Hb & _).
+    rewrite (ind2sub_sub2ind [I; K] _ Hb). unfold zs. cbn [map pick app]. now rewrite !Nat2Z.id.
+Qed.
+
+(* ---- the bridge: tnt as the code builds it holds exactly the triples of C14_gram_sparse — for EVERY tensor with at least two modes
+   unless mode n and the product of the other modes are both 1 (singleton mode n, singleton product of the others: accepted) *)
 Theorem sp_nvecs_tnt_eq (S : sparse V) (n : nat) :
   let s := sshape S in
   let rs := remove_nth n s in
-  n < length s -> length (ssubs S) = length (svals S) -> Forall (fun i => inb s i = true) (ssubs S) ->
-  1 < nth n s 0 -> 1 < size rs ->
-  sp_nvecs_tnt v0 S n =
+  n < length s -> 2 <= length s -> length (ssubs S) = length (svals S) -> Forall (fun i => inb s i = true) (ssubs S) ->
+  ~ (nth n s 0 = 1 /\ size rs = 1) ->
+  sp_nvecs_tnt S n =
   Some (mkCoo [size rs; nth n s 0] (map (fun j => [sub2ind rs (remove_nth n j); nth n j 0]) (ssubs S)) (svals S)).
 Proof.
-  intros s rs Hn HL Hin HI HK. subst rs s. unfold sp_nvecs_tnt.
+  intros s rs Hn H2 HL Hin Hns. subst rs s. unfold sp_nvecs_tnt.
   rewrite (setdiff_single _ n Hn). rewrite (pick_rest 0 (sshape S) _ n eq_refl Hn).
-  rewrite (sp_reshape_nvecs S n Hn HL Hin HK).
-  rewrite sp_squeeze_nvecs by (auto; now rewrite map_length).
+  rewrite (sp_reshape_nvecs S n Hn HL Hin H2). cbn [sshape forallb length seq firstn].
+  replace (_ && _) with false.
+  2:{ symmetry. destruct (Nat.eqb_spec 1 (nth n (sshape S) 0)) as [E1|_]; [|reflexivity].
+      destruct (Nat.eqb_spec 1 (size (remove_nth n (sshape S)))) as [E2|_]; [|reflexivity]. exfalso. apply Hns. now split. }
+  rewrite sp_reshape_second.
+  2:{ now rewrite map_length. }
+  2:{ apply Forall_forall. intros j3 Hj3. apply in_map_iff in Hj3 as (j & <- & Hj). rewrite Forall_forall in Hin.
+      specialize (Hin j Hj). cbn [inb].
+      rewrite (proj2 (Nat.ltb_lt _ _) (inb_nth n _ j Hn Hin)).
+      rewrite (proj2 (Nat.ltb_lt _ _) (sub2ind_lt _ _ (inb_remove n _ j Hn Hin))). reflexivity. }
   unfold spmatrix. cbn [sshape ssubs svals length Nat.eqb option_map coo_transpose coo_shape coo_subs coo_data rev app].
   rewrite !map_map. unfold coo_transpose. cbn [coo_shape coo_subs coo_data nth rev app]. rewrite map_map. cbn [rev app]. reflexivity.
 Qed.
 
 Theorem sp_triples_bridge (S : sparse V) (n : nat) :
   let s := sshape S in
-  n < length s -> length (ssubs S) = length (svals S) -> Forall (fun i => inb s i = true) (ssubs S) ->
-  1 < nth n s 0 -> 1 < size (remove_nth n s) ->
-  exists C, sp_nvecs_tnt v0 S n = Some C /\ coo_shape C = [size (remove_nth n s); nth n s 0] /\
+  n < length s -> 2 <= length s -> length (ssubs S) = length (svals S) -> Forall (fun i => inb s i = true) (ssubs S) ->
+  ~ (nth n s 0 = 1 /\ size (remove_nth n s) = 1) ->
+  exists C, sp_nvecs_tnt S n = Some C /\ coo_shape C = [size (remove_nth n s); nth n s 0] /\
             Forall (fun rc => inb (coo_shape C) rc = true) (coo_subs C) /\
             coo_triples C = sp_triples S n.
 Proof.
-  intros s Hn HL Hin HI HK. eexists. split; [apply (sp_nvecs_tnt_eq S n Hn HL Hin HI HK)|]. fold s.
+  intros s Hn H2 HL Hin Hns. eexists. split; [apply (sp_nvecs_tnt_eq S n Hn H2 HL Hin Hns)|]. fold s.
   cbn [coo_shape coo_subs]. split; [reflexivity|]. split.
   - apply Forall_forall. intros rc Hrc. apply in_map_iff in Hrc as (j & <- & Hj).
     rewrite Forall_forall in Hin. specialize (Hin j Hj). cbn [inb].
@@ -155,26 +202,26 @@ Qed.
 (* y = tnt^T tnt as the code path forms it IS gram_sp_impl *)
 Theorem gram_sp_code_path_eq (S : sparse V) (n : nat) :
   let s := sshape S in
-  n < length s -> length (ssubs S) = length (svals S) -> Forall (fun i => inb s i = true) (ssubs S) ->
-  1 < nth n s 0 -> 1 < size (remove_nth n s) ->
+  n < length s -> 2 <= length s -> length (ssubs S) = length (svals S) -> Forall (fun i => inb s i = true) (ssubs S) ->
+  ~ (nth n s 0 = 1 /\ size (remove_nth n s) = 1) ->
   gram_sp_code_path v0 vadd vmul S n = Some (gram_sp_impl v0 vadd vmul S n).
 Proof.
-  intros s Hn HL Hin HI HK. unfold gram_sp_code_path.
-  destruct (sp_triples_bridge S n Hn HL Hin HI HK) as (C & -> & Hs & _ & Ht).
+  intros s Hn H2 HL Hin Hns. unfold gram_sp_code_path.
+  destruct (sp_triples_bridge S n Hn H2 HL Hin Hns) as (C & -> & Hs & _ & Ht).
   rewrite Hs, Ht. reflexivity.
 Qed.
 
 (* … and, read through the arrays the COO matrices denote (C14_coo_product), the matrix product is gram_spec of den_sp *)
 Theorem gram_sp_code_path_spec (S : sparse V) (n a b : nat) :
   let s := sshape S in
-  wf_sp isz S -> n < length s -> 1 < nth n s 0 -> 1 < size (remove_nth n s) -> a < nth n s 0 -> b < nth n s 0 ->
-  exists C Y, sp_nvecs_tnt v0 S n = Some C /\ coo_shape C = [size (remove_nth n s); nth n s 0] /\
+  wf_sp isz S -> n < length s -> 2 <= length s -> ~ (nth n s 0 = 1 /\ size (remove_nth n s) = 1) -> a < nth n s 0 -> b < nth n s 0 ->
+  exists C Y, sp_nvecs_tnt S n = Some C /\ coo_shape C = [size (remove_nth n s); nth n s 0] /\
     gram_sp_code_path v0 vadd vmul S n = Some Y /\
     mget v0 Y a b = sum_n v0 vadd (size (remove_nth n s)) (fun k => vmul (den_coo v0 vadd C [k; a]) (den_coo v0 vadd C [k; b])) /\
     mget v0 Y a b = gram_spec v0 vadd vmul s (den_sp v0 S) n a b.
 Proof.
-  intros s W Hn HI HK Ha Hb. pose proof W as (HL & _ & Hin & _).
-  destruct (sp_triples_bridge S n Hn HL Hin HI HK) as (C & HC & Hs & Hb' & Ht).
+  intros s W Hn H2 Hns Ha Hb. pose proof W as (HL & _ & Hin & _).
+  destruct (sp_triples_bridge S n Hn H2 HL Hin Hns) as (C & HC & Hs & Hb' & Ht).
   exists C, (gram_sp_impl v0 vadd vmul S n). split; [exact HC|]. split; [exact Hs|]. split.
   - now apply gram_sp_code_path_eq.
   - split.
@@ -206,11 +253,11 @@ Proof.
   - constructor.
 Qed.
 
-Theorem sp_nvecs_tnt_refused (S : sparse V) (n : nat) :
+Theorem sp_nvecs_tnt_old_refused (S : sparse V) (n : nat) :
   let s := sshape S in
-  n < length s -> nth n s 0 <= 1 \/ size (remove_nth n s) <= 1 -> sp_nvecs_tnt v0 S n = None.
+  n < length s -> nth n s 0 <= 1 \/ size (remove_nth n s) <= 1 -> sp_nvecs_tnt_old v0 S n = None.
 Proof.
-  intros s Hn H. unfold sp_nvecs_tnt. fold s.
+  intros s Hn H. unfold sp_nvecs_tnt_old. fold s.
   rewrite (setdiff_single (length s) n Hn). rewrite (pick_rest 0 s (length s) n eq_refl Hn).
   destruct (sp_reshape_gen S _ _) as [R|] eqn:ER; [|reflexivity].
   apply sp_reshape_shape in ER. fold s in ER. rewrite (setdiff_rest (length s) n Hn) in ER. cbn [pick map app] in ER.
@@ -219,14 +266,49 @@ Proof.
   unfold spmatrix. destruct (Nat.eqb_spec (length (sshape Q)) 2) as [E|_]; [contradiction|reflexivity].
 Qed.
 
+(* the repaired path still refuses — ValueError("Cannot call nvecs on sptensor with only singleton dimensions"), pinned by
+   tests/test_sptensor.py::test_sptensor_nvecs — exactly when mode n AND the product of the other modes are 1 *)
+Theorem sp_nvecs_tnt_all_singleton (S : sparse V) (n : nat) :
+  let s := sshape S in
+  n < length s -> nth n s 0 = 1 -> size (remove_nth n s) = 1 -> sp_nvecs_tnt S n = None.
+Proof.
+  intros s Hn H1 HK. unfold sp_nvecs_tnt. fold s.
+  rewrite (setdiff_single (length s) n Hn). rewrite (pick_rest 0 s (length s) n eq_refl Hn).
+  destruct (sp_reshape_gen S _ _) as [R|] eqn:ER; [|reflexivity].
+  apply sp_reshape_shape in ER. fold s in ER. rewrite (setdiff_rest (length s) n Hn) in ER. cbn [pick map app] in ER.
+  rewrite ER, H1, HK. reflexivity.
+Qed.
+
+(* the positive statement that replaces the refusal theorem of finding C14-F2: a singleton mode n (other modes not all singleton), or
+   all other modes singleton (mode n not), is ANSWERED, and the matrix handed to the solver is gram_spec of the denotation *)
+Theorem sp_singleton_answered (S : sparse V) (n : nat) :
+  let s := sshape S in
+  wf_sp isz S -> n < length s -> 2 <= length s ->
+  (nth n s 0 = 1 /\ 1 < size (remove_nth n s)) \/ (1 < nth n s 0 /\ size (remove_nth n s) = 1) ->
+  exists C Y, sp_nvecs_tnt S n = Some C /\ coo_shape C = [size (remove_nth n s); nth n s 0] /\
+    gram_sp_code_path v0 vadd vmul S n = Some Y /\ Y = gram_sp_impl v0 vadd vmul S n /\
+    forall a b, a < nth n s 0 -> b < nth n s 0 -> mget v0 Y a b = gram_spec v0 vadd vmul s (den_sp v0 S) n a b.
+Proof.
+  intros s W Hn H2 Hcase. pose proof W as (HL & _ & Hin & _).
+  assert (Hns : ~ (nth n s 0 = 1 /\ size (remove_nth n s) = 1)) by (intros [E1 E2]; destruct Hcase as [[_ H]|[H _]]; lia).
+  destruct (sp_triples_bridge S n Hn H2 HL Hin Hns) as (C & HC & Hs & _ & _).
+  exists C, (gram_sp_impl v0 vadd vmul S n). split; [exact HC|]. split; [exact Hs|]. split; [now apply gram_sp_code_path_eq|].
+  split; [reflexivity|]. intros a b Ha Hb. now apply (gram_sparse V v0 v1 vadd vmul vsub vopp Vring isz).
+Qed.
+
 End SpPathProofs.
 
 Example sp_path_example :
   let S := mkSp [2; 3; 2] [[1; 2; 0]; [0; 0; 1]; [1; 0; 0]; [0; 2; 0]] [5; 2; 3; 4] in
-  sp_nvecs_tnt 0 S 1 = Some (mkCoo [4; 3] [[1; 2]; [2; 0]; [1; 0]; [0; 2]] [5; 2; 3; 4]) /\
-  sp_nvecs_tnt 0 S 0 = Some (mkCoo [6; 2] [[2; 1]; [3; 0]; [0; 1]; [2; 0]] [5; 2; 3; 4]) /\
+  sp_nvecs_tnt S 1 = Some (mkCoo [4; 3] [[1; 2]; [2; 0]; [1; 0]; [0; 2]] [5; 2; 3; 4]) /\
+  sp_nvecs_tnt S 0 = Some (mkCoo [6; 2] [[2; 1]; [3; 0]; [0; 1]; [2; 0]] [5; 2; 3; 4]) /\
   gram_sp_code_path 0 Nat.add Nat.mul S 1 = Some [[13; 0; 15]; [0; 0; 0]; [15; 0; 41]] /\
   gram_sp_code_path 0 Nat.add Nat.mul S 0 = Some [[20; 20]; [20; 34]] /\
-  sp_nvecs_tnt 0 (mkSp [1; 4; 3] [[0; 1; 2]; [0; 3; 0]] [2; 1]) 0 = None /\
-  sp_nvecs_tnt 0 (mkSp [3; 1] [[0; 0]; [2; 0]] [2; 3]) 0 = None.
+  sp_nvecs_tnt (mkSp [1; 4; 3] [[0; 1; 2]; [0; 3; 0]] [2; 1]) 0 = Some (mkCoo [12; 1] [[9; 0]; [3; 0]] [2; 1]) /\
+  gram_sp_code_path 0 Nat.add Nat.mul (mkSp [1; 4; 3] [[0; 1; 2]; [0; 3; 0]] [2; 1]) 0 = Some [[5]] /\
+  sp_nvecs_tnt (mkSp [3; 1] [[0; 0]; [2; 0]] [2; 3]) 0 = Some (mkCoo [1; 3] [[0; 0]; [0; 2]] [2; 3]) /\
+  gram_sp_code_path 0 Nat.add Nat.mul (mkSp [3; 1] [[0; 0]; [2; 0]] [2; 3]) 0 = Some [[4; 0; 6]; [0; 0; 0]; [6; 0; 9]] /\
+  sp_nvecs_tnt (mkSp [1; 1; 1] [[0; 0; 0]] [7]) 2 = None /\
+  sp_nvecs_tnt_old 0 (mkSp [1; 4; 3] [[0; 1; 2]; [0; 3; 0]] [2; 1]) 0 = None /\
+  sp_nvecs_tnt_old 0 (mkSp [3; 1] [[0; 0]; [2; 0]] [2; 3]) 0 = None.
 Proof. vm_compute. repeat split. Qed.
